@@ -74,6 +74,9 @@ func fileSets() map[string][]fileSpec {
 		// symbolic links to files (a vendored copy pointing at the top-level license): a file like any other
 		"symlinks": {{"LICENSE", mit}, {"NOTES", "plain\n"}, {"pkg/a/LICENSE", "\x00LINK:../../LICENSE"}, {"pkg/b/COPYING", "\x00LINK:../../LICENSE"}, {"linked-notes", "\x00LINK:NOTES"}},
 		// copyright notices and date lines before, inside and - the last line with any words - after the license
+		// files with very many matches each: 70 / 130 / 300 notice lines (every line a Copyright match)
+		// around a license, and a notice list without any license
+		"many-matches":     {{"NOTICE", manyNotices(70) + mit}, {"AUTHORS", manyNotices(130) + "\n" + bsd + "\n" + manyNotices(3)}, {"THIRD-PARTY", mit + "\n" + manyNotices(300)}, {"names.txt", manyNotices(65)}},
 		"notice-positions": {{"head.txt", "Copyright 2019 First Holder\n" + mit}, {"tail.txt", mit + "\nCopyright 2020 Last Holder\n"}, {"date.txt", mit + "\n\n2020-01-02\n"}, {"tail-blank.txt", mit + "\nCopyright 2021 Somebody\n\n\n"}, {"both.txt", "2001-02-03\n" + bsd + "\nCopyright (c) 2022 Z\n"}},
 		// run with -ignore_paths_re '.*/AUTHORS' (a FILE pattern): only that file is left out, not what
 		// follows it in its directory
@@ -149,7 +152,7 @@ func c19CLI(c *vrep.Ctx) {
 	}
 	sort.Strings(names)
 	if !c.Thorough() {
-		names = []string{"licensed", "unlicensed", "nested", "crlf", "long-line-first", "header-only", "copyright-only", "no-trailing-nl", "identical-twins", "crowd", "latin1", "big-no-trailing-nl", "license-after-64k", "ignore-authors", "notice-positions", "symlinks", "duplicates"}
+		names = []string{"licensed", "unlicensed", "nested", "crlf", "long-line-first", "header-only", "copyright-only", "no-trailing-nl", "identical-twins", "crowd", "latin1", "big-no-trailing-nl", "license-after-64k", "ignore-authors", "notice-positions", "symlinks", "duplicates", "many-matches"}
 	}
 	taskMenu := []string{"1", "2", "16", "default"}
 	c.R.Rule = fmt.Sprintf("the real identify_license binary built from the current tree, over %d file sets (licensed, unlicensed, nested directories, no trailing newline, CRLF, a 70 000-character line, empty file, header-only, copyright-only, two licenses in one file, many files, 1100 files, a tree run with -ignore_paths_re for one file name) x {-headers} x {plain, -json -include_text} x -tasks %v: stdout lines (as a multiset), JSON Text (= lines StartLine..EndLine of the file) and exit status compared with in-process DefaultClassifier().Match on the file bytes; quick tier samples the flag combinations round-robin, thorough runs all; non-trivial = runs that reported at least one line", len(names), taskMenu)
@@ -427,6 +430,15 @@ func utf8Replaced(s string) string {
 			sb.WriteString(s[i : i+size])
 		}
 		i += size
+	}
+	return sb.String()
+}
+
+// manyNotices returns n lines, each a copyright notice of its own holder.
+func manyNotices(n int) string {
+	var sb strings.Builder
+	for i := 0; i < n; i++ {
+		fmt.Fprintf(&sb, "Copyright %d Holder Number %d\n", 1990+i%30, i)
 	}
 	return sb.String()
 }
